@@ -277,13 +277,21 @@ Definition flags_of (now : Z) (ents : list aent) (recs : list arec) (o : op) : l
 
 Definition obs_val (x : obs) : Z := match x with OVal v => v | _ => -1 end.
 
+(* the answers that are functions of the abstract state: does the model give A's answer? *)
+Definition same_answer (o : op) (mx ax : obs) : bool :=
+  match o with
+  | OConsume _ _ _ _ _ _ | OGetRec _ => obs_val mx =? obs_val ax
+  | OAddrs _ => match mx, ax with OList x, OList y => seteq x y | _, _ => false end
+  | _ => true
+  end.
+
 Fixpoint roots_mem (s : mbook) (a : abook) (i : Z) (tr : list (op * obs)) : list Z :=
   match tr with
   | [] => []
   | (o, _) :: r =>
       let '(s', mx) := m_step s o in
-      let a' := fst (a_step a o) in
-      if sim 1 (m_abs s') a' then
+      let '(a', ax) := a_step a o in
+      if sim 1 (m_abs s') a' && same_answer o mx ax then
         (match o with
          | OGC => if zlen' (m_ents s') =? zlen' (a_ents a') then [] else [i; 10; 0; 0; 0; -1]
          | _ => []
@@ -297,8 +305,8 @@ Fixpoint roots_ds (s : dbook) (a : abook) (i : Z) (tr : list (op * obs)) : list 
   | [] => []
   | (o, _) :: r =>
       let '(s', mx) := d_step s o in
-      let a' := fst (a_step a o) in
-      if sim SEC (d_abs s') a' then
+      let '(a', ax) := a_step a o in
+      if sim SEC (d_abs s') a' && same_answer o mx ax then
         (match o with
          | OGC => if d_stored s' =? zlen' (a_ents a') then []
                   else [i; 10; boolz (d_cached s); boolz (0 <? d_look s); 0; -1]
